@@ -19,6 +19,10 @@ CLAIMED = {
             'Trusted: the stub controller (frees min(reported, outstanding)); per-connection order only; virtual-time asyncio loop.', 'DESIGN.md §5 C04'),
 }
 
+CLAIMED['C03'] = ('exploration', 'deterministic simulation: seeded concurrent command programs + link situations, wire monitors at the host/controller boundary',
+    'Seeded search: 1-6 concurrent callers x commands from every registered class (values from field specs) and unregistered opcodes x host<->controller latency x controller capability subsets; directed procedure runs in link situations (peer advertising/silent/removed mid-procedure/cancel/unknown handle). Monitors: <=1 outstanding, exactly one Complete/Status per command with the right opcode, every awaitable resolves, accepted procedures conclude. Sampling, not proof.',
+    'Trusted: the latency channels; HCI event parsing in the monitor; completion table written from Core Vol 4 Part E (DESIGN.md App. B). CIS set-up procedures are generated only as random commands, not as a directed situation.', 'DESIGN.md §5 C03')
+
 NOT_YET = {}
 
 
